@@ -213,7 +213,9 @@ Fixpoint cd_updates (sizes : Z -> Z) (from to : list Z) (fh : hashlist) (tkeys :
     if emit then Ok (c + 1, hdr ++ body ++ rest) else Ok (c, rest)
   end.
 
-(* sizes = m_aItemSizes (bytes; 0 = no static size), indices 0 .. 63 *)
+(* sizes = m_aItemSizes (bytes; 0 = no static size), indices 0 .. 63.
+   (aPastIndices is an int[MAX_ITEMS] on the stack: a `to` snapshot with more than 1024 items would
+   overflow it; the builder never makes one, ref_new_item drops the 1025th item.) *)
 Definition ref_create_delta (sizes : Z -> Z) (from to : list Z) : res unit (list Z) :=
   let* tk := cs_keys to in
   let th := gen_hash tk in                              (* GenerateHash(aHashlist, pTo) *)
